@@ -327,7 +327,7 @@ func (w *worldE) Run(t *testing.T, profile string, sc any, cfg simrt.Config) *Ou
 	out := &Outcome{}
 	r := &eRun{s: s, out: out, sinks: map[string]*eSink{}}
 	logger.SetOutput(&r.logbuf)
-	logger.SetLogLevel(logger.InfoLevel)
+	logger.SetLogLevel(logger.DebugLevel) // the listener reports why it flushes at debug level (rule renewal-flush-cadence)
 	cfg.MaxSimTime = 10 * time.Hour
 	out.Res = simrt.Run(t, cfg, r.drive)
 	out.Log = r.logbuf.String()
@@ -495,6 +495,29 @@ func (r *eRun) evaluate(out *Outcome) {
 		p := strings.SplitN(n, "\x00", 2)
 		out.violate(prop, p[0], p[0], "%s", p[1])
 	}
+	// flushes forced after a successful read come with a renewal of the read deadline, and the deadline is renewed only when
+	// less than the flush interval of it is left: two such flushes of one connection are at least a flush interval apart.
+	// (A flush after every read would cut multi-line records although no pause separates their lines.)
+	// (two of them can coincide: the baseline is not refreshed by an idle timeout, so the first read after one is followed by
+	// a forced flush, and a genuine renewal can fall on the very next read - hence the rule looks at every third one)
+	lastForced := map[string][]time.Time{}
+	for _, ln := range strings.Split(out.Log, "\n") {
+		if !strings.Contains(ln, "flush input for deadline update") {
+			continue
+		}
+		ts, client := logField(ln, "time"), logField(ln, "client")
+		t, err := time.Parse(time.RFC3339Nano, ts)
+		if err != nil || client == "" {
+			continue
+		}
+		out.Obligations++
+		h := append(lastForced[client], t)
+		if n := len(h); n >= 3 && t.Sub(h[n-3]) < ms(s.FlushMs)-time.Millisecond {
+			out.violate(prop, "renewal-flush-cadence", "renewal-flush-cadence", "connection %s: three flushes forced after reads within %v (flush interval %dms): the listener flushes more often than the read deadline is renewed", client, t.Sub(h[n-3]), s.FlushMs)
+			break
+		}
+		lastForced[client] = h
+	}
 	for ci, ec := range s.Conns {
 		sk := r.sinks[r.addrOf[ci]]
 		if sk == nil {
@@ -594,4 +617,23 @@ func (r *eRun) evaluate(out *Outcome) {
 		}
 		out.Sample = map[string]any{"scenario": s, "emitted_conn0": msgs}
 	}
+}
+
+// logField extracts key="value" or key=value from a logrus text line
+func logField(line, key string) string {
+	i := strings.Index(line, key+"=")
+	if i < 0 {
+		return ""
+	}
+	rest := line[i+len(key)+1:]
+	if strings.HasPrefix(rest, "\"") {
+		if j := strings.Index(rest[1:], "\""); j >= 0 {
+			return rest[1 : 1+j]
+		}
+		return ""
+	}
+	if j := strings.IndexByte(rest, ' '); j >= 0 {
+		return rest[:j]
+	}
+	return rest
 }
